@@ -144,6 +144,53 @@ def vtty_tests():
     tty.select([], [], [], 1e-17)
     if not tty.clock > t0:
         fails.append("vtty: an expired select(1e-17) did not advance the clock")
+    fails += vstdout_tests()
+    return fails
+
+
+def vstdout_tests():
+    """Delivery disciplines of the virtual stdout (hand-computed)."""
+    fails = []
+
+    def run(buffering, ops, plan=None):
+        so = world.VStdout(term=None, buffering=buffering, plan=plan)
+        exc = None
+        try:
+            for op in ops:
+                so.flush() if op is None else so.write(op)
+        except KeyboardInterrupt:
+            exc = True
+        return so.getvalue(), so.pending(), exc
+
+    P = world.FaultPlan
+    table = [
+        ("none", ["ab", "cd"], None, ("abcd", "", None)),
+        ("full", ["ab", "cd"], None, ("", "abcd", None)),
+        ("full", ["ab", "cd", None, "e"], None, ("abcd", "e", None)),
+        ("line", ["ab", "c\nd", "e"], None, ("abc\nd", "e", None)),
+        ("full", ["ab", "cd", None], P(3, "partial", KeyboardInterrupt, 3, False), ("abc", "", True)),
+        ("full", ["ab", "cd", None], P(3, "partial", KeyboardInterrupt, 3, True), ("abc", "d", True)),
+        ("full", ["ab", "cd", None], P(3, "instead", KeyboardInterrupt), ("", "abcd", True)),
+        ("full", ["ab", "cd", None], P(3, "after", KeyboardInterrupt), ("abcd", "", True)),
+        ("full", ["ab", "cd", None], P(2, "instead", KeyboardInterrupt), ("", "ab", True)),
+        ("full", ["ab", "cd", None], P(2, "after", KeyboardInterrupt), ("", "abcd", True)),
+        ("line", ["ab", "c\nd"], P(2, "partial", KeyboardInterrupt, 3, False), ("abc", "", True)),
+        ("line", ["ab", "c\nd"], P(2, "partial", KeyboardInterrupt, 3, True), ("abc", "\nd", True)),
+        ("none", ["ab", "cd", "ef", None], P(2, "partial", KeyboardInterrupt, 1, True), ("abc", "d", True)),
+    ]
+    for buffering, ops, plan, want in table:
+        got = run(buffering, ops, plan)
+        if got != want:
+            fails.append(f"vstdout {buffering} {ops} {vars(plan) if plan else None}: {got} != {want}")
+    # order is kept: the rest of an interrupted write goes out before anything written later
+    so = world.VStdout(term=None, plan=P(1, "partial", KeyboardInterrupt, 1, True))
+    try:
+        so.write("ab")
+    except KeyboardInterrupt:
+        pass
+    so.write("cd")
+    if so.getvalue() != "abcd":
+        fails.append(f"vstdout none/buffered order: {so.getvalue()!r}")
     return fails
 
 
